@@ -85,7 +85,7 @@ def toReq (t : TitanLine) (content : Bytes) : UReq :=
 
 /-- the protocol layer: `none` = nothing dispatched yet (content incomplete), otherwise the
     handler's answer on the first `size` bytes (`raised` is answered with 40 by the protocol) -/
-def protoUpload (env : Url.Env) (os : OS) (c : UCfg) (f : Faults) (line : List Char) (buffer : Bytes) :
+def protoUpload (env : Url.Env) (os : UOS) (c : UCfg) (f : Faults) (line : List Char) (buffer : Bytes) :
     Option (UStatus × List Effect) :=
   match parseTitan env line with
   | none => some (.s59, [])
